@@ -166,6 +166,37 @@ def run(ctx):
             ctx.violation("C10:comparison-disagrees-with-kelvin",
                           f"{mag!r} {ua} vs {mag2!r} {ub}: <:{lt} >:{gt} ==:{eq}; kelvin {core.sf(k1)!r} vs {core.sf(k2)!r}",
                           {"a": [repr(mag), a, pa], "b": [repr(mag2), b, pb]})
+    # exhaustive comparison table: every ordered pair of scales x every pair of special readings (zeros of
+    # every numeric type, equal readings, the fixed points of each scale), all six operators
+    special = [0, 0.0, -0.0, Decimal(0), 1, -1, -40, 32, 100, 212, 273.15, -273.15, 373.15, 459.67, -459.67, 491.67, Decimal("273.15")]
+    import operator as _op
+    for a in SCALES:
+        for b in SCALES:
+            for m1 in special:
+                for m2 in special:
+                    ctx.count("evaluations")
+                    ctx.count("relations/comparison_table")
+                    k1, k2 = to_kelvin(a, oracle.F(m1)), to_kelvin(b, oracle.F(m2))
+                    q1, q2 = m1 * U[a], m2 * U[b]
+                    if k1 != k2 and abs(k1 - k2) <= max(abs(k1), abs(k2), K0) * Fraction(1, 10**9):
+                        ctx.count("relations/comparison_ties_skipped")
+                        continue
+                    try:
+                        got = {n: getattr(_op, n)(q1, q2) for n in ("eq", "ne", "lt", "le", "gt", "ge")}
+                    except Exception as e:
+                        ctx.violation(f"C10:comparison-raised:{type(e).__name__}", f"{q1!r} ? {q2!r}: {e}", {})
+                        continue
+                    if k1 == k2:
+                        # exactly the same temperature: float rounding of the offsets may make == False, but the
+                        # two can never be ordered both ways and == / != must be complementary
+                        if got["eq"] == got["ne"] or (got["lt"] and got["gt"]):
+                            ctx.violation("C10:comparison-incoherent-at-a-tie", f"{q1!r} vs {q2!r}: {got}", {})
+                        continue
+                    want = {"eq": False, "ne": True, "lt": k1 < k2, "le": k1 < k2, "gt": k1 > k2, "ge": k1 > k2}
+                    if got != want:
+                        ctx.violation("C10:comparison-disagrees-with-kelvin",
+                                      f"{m1!r} {a} vs {m2!r} {b}: {({k: v for k, v in got.items() if v != want[k]})}; kelvin {core.sf(k1)!r} vs {core.sf(k2)!r}",
+                                      {"a": [repr(m1), a], "b": [repr(m2), b]})
     # absolute zero maps to absolute zero
     for a in SCALES:
         for b in SCALES:
